@@ -61,6 +61,13 @@ module Coq__1 = struct
 end
 include Coq__1
 
+(** val mul : nat -> nat -> nat **)
+
+let rec mul n m =
+  match n with
+  | O -> O
+  | S p -> add m (mul p m)
+
 (** val sub : nat -> nat -> nat **)
 
 let rec sub n m =
@@ -741,6 +748,13 @@ let rec flat_map f = function
 | [] -> []
 | x :: t -> app (f x) (flat_map f t)
 
+(** val fold_left : ('a1 -> 'a2 -> 'a1) -> 'a2 list -> 'a1 -> 'a1 **)
+
+let rec fold_left f l a0 =
+  match l with
+  | [] -> a0
+  | b :: t -> fold_left f t (f a0 b)
+
 (** val fold_right : ('a2 -> 'a1 -> 'a1) -> 'a1 -> 'a2 list -> 'a1 **)
 
 let rec fold_right f a0 = function
@@ -799,6 +813,11 @@ type q = { qnum : z; qden : positive }
 
 let qeq_dec x y =
   Z.eq_dec (Z.mul x.qnum (Zpos y.qden)) (Z.mul y.qnum (Zpos x.qden))
+
+(** val qle_bool : q -> q -> bool **)
+
+let qle_bool x y =
+  Z.leb (Z.mul x.qnum (Zpos y.qden)) (Z.mul y.qnum (Zpos x.qden))
 
 (** val qplus : q -> q -> q **)
 
@@ -1793,266 +1812,69 @@ let run_c19 sub0 a =
                      (cQ.omul (fst nm) (inv_pow cQ lr (snd nm)))) :: [])))))
   | _ -> []
 
-(** val scan :
-    ('a1 -> 'a2 -> 'a1 * 'a3) -> 'a1 -> 'a2 list -> 'a1 * 'a3 list **)
-
-let rec scan f c = function
-| [] -> (c, [])
-| x :: r ->
-  let (c', y) = f c x in let (cf, ys) = scan f c' r in (cf, (y :: ys))
-
-(** val rollout : ('a1 -> 'a1) -> nat -> bool -> 'a1 -> 'a1 list **)
-
-let rollout f n include_init u0 =
-  let scan_fn = fun u _ -> let u' = f u in (u', u') in
-  let trj = snd (scan scan_fn u0 (repeat () n)) in
-  if include_init then u0 :: trj else trj
-
-(** val repeat_fn : ('a1 -> 'a1) -> nat -> 'a1 -> 'a1 **)
-
-let repeat_fn f n u0 =
-  let scan_fn = fun u _ -> let u' = f u in (u', ()) in
-  fst (scan scan_fn u0 (repeat () n))
-
-type 'x auxarg =
-| AuxConst of 'x
-| AuxSeq of 'x list
-
-(** val aux_seq : nat -> bool -> 'a1 auxarg -> 'a1 list option **)
-
-let aux_seq n constant_aux a =
-  if constant_aux
-  then (match a with
-        | AuxConst x -> Some (repeat x n)
-        | AuxSeq _ -> None)
-  else (match a with
-        | AuxConst _ -> None
-        | AuxSeq xs -> if Nat.eqb (length xs) n then Some xs else None)
+type 'k dual = { val0 : 'k; eps : 'k }
 
-(** val rollout_aux :
-    ('a1 -> 'a2 -> 'a1) -> nat -> bool -> bool -> 'a1 -> 'a2 auxarg -> 'a1
-    list option **)
+(** val dzero : ops -> car dual **)
 
-let rollout_aux f n include_init constant_aux u0 a =
-  match aux_seq n constant_aux a with
-  | Some xs ->
-    let scan_fn = fun u x -> let u' = f u x in (u', u') in
-    let trj = snd (scan scan_fn u0 xs) in
-    Some (if include_init then u0 :: trj else trj)
-  | None -> None
+let dzero k =
+  { val0 = k.o0; eps = k.o0 }
 
-(** val repeat_aux :
-    ('a1 -> 'a2 -> 'a1) -> nat -> bool -> 'a1 -> 'a2 auxarg -> 'a1 option **)
+(** val dunit : ops -> car dual **)
 
-let repeat_aux f n constant_aux u0 a =
-  match aux_seq n constant_aux a with
-  | Some xs ->
-    let scan_fn = fun u x -> let u' = f u x in (u', ()) in
-    Some (fst (scan scan_fn u0 xs))
-  | None -> None
+let dunit k =
+  { val0 = k.o1; eps = k.o0 }
 
-(** val dynamic_slice : 'a1 list -> nat -> nat -> 'a1 list **)
+(** val dadd : ops -> car dual -> car dual -> car dual **)
 
-let dynamic_slice l i len =
-  firstn len (skipn (Nat.min i (sub (length l) len)) l)
+let dadd k a b =
+  { val0 = (k.oadd a.val0 b.val0); eps = (k.oadd a.eps b.eps) }
 
-(** val stack_sub : 'a1 list -> nat -> 'a1 list list option **)
+(** val dsub : ops -> car dual -> car dual -> car dual **)
 
-let stack_sub trj sub_len =
-  let t = length trj in
-  if Nat.ltb t sub_len
-  then None
-  else Some
-         (map (fun i -> dynamic_slice trj i sub_len)
-           (seq O (add (sub t sub_len) (S O))))
+let dsub k a b =
+  { val0 = (k.osub a.val0 b.val0); eps = (k.osub a.eps b.eps) }
 
-(** val all_same : nat list -> bool **)
+(** val dopp : ops -> car dual -> car dual **)
 
-let all_same = function
-| [] -> true
-| x :: r -> forallb (Nat.eqb x) r
+let dopp k a =
+  { val0 = (k.oopp a.val0); eps = (k.oopp a.eps) }
 
-(** val stack_sub_tree : 'a1 list list -> nat -> 'a1 list list list option **)
+(** val dmul : ops -> car dual -> car dual -> car dual **)
 
-let stack_sub_tree leaves sub_len =
-  match leaves with
-  | [] -> None
-  | l0 :: _ ->
-    if all_same (map length leaves)
-    then if Nat.ltb (length l0) sub_len
-         then None
-         else Some
-                (map (fun leaf ->
-                  match stack_sub leaf sub_len with
-                  | Some w -> w
-                  | None -> []) leaves)
-    else None
+let dmul k a b =
+  { val0 = (k.omul a.val0 b.val0); eps =
+    (k.oadd (k.omul a.eps b.val0) (k.omul a.val0 b.eps)) }
 
-(** val rep : z list -> z -> z list **)
+(** val dinv : ops -> car dual -> car dual **)
 
-let rep l n =
-  concat (repeat l (Z.to_nat n))
+let dinv k a =
+  { val0 = (k.oinv a.val0); eps =
+    (k.odiv (k.oopp a.eps) (k.omul a.val0 a.val0)) }
 
-(** val shape_eqb : z list -> z list -> bool **)
+(** val ddiv : ops -> car dual -> car dual -> car dual **)
 
-let rec shape_eqb a b =
-  match a with
-  | [] -> (match b with
-           | [] -> true
-           | _ :: _ -> false)
-  | x :: a' ->
-    (match b with
-     | [] -> false
-     | y :: b' -> (&&) (Z.eqb x y) (shape_eqb a' b'))
+let ddiv k a b =
+  { val0 = (k.odiv a.val0 b.val0); eps =
+    (k.odiv (k.osub (k.omul a.eps b.val0) (k.omul a.val0 b.eps))
+      (k.omul b.val0 b.val0)) }
 
-(** val all_eqb : z list -> bool **)
+(** val deqb : ops -> car dual -> car dual -> bool **)
 
-let all_eqb = function
-| [] -> false
-| x :: r -> forallb (Z.eqb x) r
+let deqb k a b =
+  k.oeqb a.val0 b.val0
 
-(** val gen_spatial_shape : z -> z -> z list **)
+(** val dualOps : ops -> ops **)
 
-let gen_spatial_shape d n =
-  rep (n :: []) d
+let dualOps k =
+  { o0 = (Obj.magic dzero k); o1 = (Obj.magic dunit k); oadd =
+    (Obj.magic dadd k); omul = (Obj.magic dmul k); osub = (Obj.magic dsub k);
+    oopp = (Obj.magic dopp k); odiv = (Obj.magic ddiv k); oinv =
+    (Obj.magic dinv k); oeqb = (Obj.magic deqb k) }
 
-(** val base_call_raises : z -> z -> z -> z list -> bool **)
+(** val dconst : ops -> car -> car dual **)
 
-let base_call_raises c d n u =
-  negb (shape_eqb u (app (c :: []) (gen_spatial_shape d n)))
-
-(** val repeated_call_raises : z -> z -> z -> z list -> bool **)
-
-let repeated_call_raises c d n u =
-  negb (shape_eqb u (app (c :: []) (gen_spatial_shape d n)))
-
-(** val poisson_call_raises : z -> z -> z list -> bool **)
-
-let poisson_call_raises d n f =
-  negb (shape_eqb (skipn (S O) f) (gen_spatial_shape d n))
-
-(** val laplace_order_raises : z -> bool **)
-
-let laplace_order_raises order =
-  negb (Z.eqb (Z.modulo order (Zpos (XO XH))) Z0)
-
-(** val gip_raises : z -> z -> z list -> bool **)
-
-let gip_raises order d velocity =
-  (||) (negb (Z.eqb (Z.modulo order (Zpos (XO XH))) (Zpos XH)))
-    ((&&) (negb (negb (Z.eqb (Z.modulo order (Zpos (XO XH))) (Zpos XH))))
-      (negb (shape_eqb velocity (d :: []))))
-
-(** val make_incompressible_raises : z list -> bool **)
-
-let make_incompressible_raises field0 =
-  negb (Z.eqb (nth O field0 Z0) (Z.of_nat (length (skipn (S O) field0))))
-
-(** val ifft_raises : z -> bool -> bool -> z list -> bool **)
-
-let ifft_raises d d_none n_none field_hat =
-  (&&) n_none
-    (negb
-      (Z.geb
-        (if d_none then Z.sub (Z.of_nat (length field_hat)) (Zpos XH) else d)
-        (Zpos (XO XH))))
-
-(** val ic_options_raise : bool -> bool -> bool -> bool **)
-
-let ic_options_raise zero_mean std_one max_one =
-  (||) ((&&) (negb zero_mean) std_one)
-    ((&&) (negb ((&&) (negb zero_mean) std_one)) ((&&) std_one max_one))
-
-(** val spatial_norm_raises : bool -> z -> bool **)
-
-let spatial_norm_raises ref_none mode =
-  (||) ((&&) ref_none (Z.eqb mode (Zpos XH)))
-    ((&&) ((&&) ref_none (negb (Z.eqb mode (Zpos XH))))
-      (Z.eqb mode (Zpos (XO XH))))
-
-(** val fourier_norm_raises : bool -> z -> bool **)
-
-let fourier_norm_raises ref_none mode =
-  (&&) ref_none (Z.eqb mode (Zpos XH))
-
-(** val general_nonlin_raises : z -> bool **)
-
-let general_nonlin_raises scale_len =
-  negb
-    (Z.eqb (Z.of_nat (length (repeat Z0 (Z.to_nat scale_len)))) (Zpos (XI
-      XH)))
-
-(** val general_nonlin_stepper_raises : z -> bool **)
-
-let general_nonlin_stepper_raises coef_len =
-  negb
-    (Z.eqb (Z.of_nat (length (repeat Z0 (Z.to_nat coef_len)))) (Zpos (XI XH)))
-
-(** val vorticity_conv_raises : z -> bool **)
-
-let vorticity_conv_raises d =
-  negb (Z.eqb d (Zpos (XO XH)))
-
-(** val projected_conv_raises : z -> bool **)
-
-let projected_conv_raises d =
-  negb (Z.eqb d (Zpos (XI XH)))
-
-(** val ns_vorticity_raises : z -> bool **)
-
-let ns_vorticity_raises d =
-  negb (Z.eqb d (Zpos (XO XH)))
-
-(** val kolmogorov_vorticity_raises : z -> bool **)
-
-let kolmogorov_vorticity_raises d =
-  negb (Z.eqb d (Zpos (XO XH)))
-
-(** val ns_velocity_raises : z -> bool **)
-
-let ns_velocity_raises d =
-  negb (Z.eqb d (Zpos (XI XH)))
-
-(** val kolmogorov_velocity_raises : z -> bool **)
-
-let kolmogorov_velocity_raises d =
-  negb (Z.eqb d (Zpos (XI XH)))
-
-(** val general_vorticity_raises : z -> bool **)
-
-let general_vorticity_raises d =
-  negb (Z.eqb d (Zpos (XO XH)))
-
-(** val gray_scott_raises : z list -> bool **)
-
-let gray_scott_raises u_hat =
-  negb (Z.eqb (nth O u_hat Z0) (Zpos (XO XH)))
-
-(** val convection_cons_raises : z -> z list -> bool **)
-
-let convection_cons_raises d u_hat =
-  negb (Z.eqb (nth O u_hat Z0) d)
-
-(** val convection_noncons_raises : z -> z list -> bool **)
-
-let convection_noncons_raises d u_hat =
-  negb (Z.eqb (nth O u_hat Z0) d)
-
-(** val random_sine_raises : z -> bool -> bool -> bool -> bool **)
-
-let random_sine_raises d offset_zero std_one max_one =
-  (||)
-    ((||) (negb (Z.eqb d (Zpos XH)))
-      ((&&) (negb (negb (Z.eqb d (Zpos XH))))
-        ((&&) (negb offset_zero) std_one)))
-    ((&&)
-      ((&&) (negb (negb (Z.eqb d (Zpos XH))))
-        (negb ((&&) (negb offset_zero) std_one))) ((&&) std_one max_one))
-
-(** val stack_sub_raises : z -> z list -> bool **)
-
-let stack_sub_raises sub_len lens =
-  (||) (negb (all_eqb lens)) (Z.gtb sub_len (hd Z0 lens))
+let dconst k x =
+  { val0 = x; eps = k.o0 }
 
 (** val map2 : ('a1 -> 'a2 -> 'a3) -> 'a1 list -> 'a2 list -> 'a3 list **)
 
@@ -2199,152 +2021,6 @@ let sym_gray_scott k nu1 nu2 channel d =
 
 let sym_swift_hohenberg k r kc d =
   k.osub r (fpow k (k.oadd kc (laplace_sym k (S (S O)) d)) (S (S O)))
-
-(** val set0 : ops -> car list -> car list -> car list **)
-
-let set0 _ l xs =
-  match l with
-  | [] -> []
-  | _ :: r -> (match xs with
-               | [] -> []
-               | x :: _ -> x :: r)
-
-(** val normalize_coefficients : ops -> car -> car -> car list -> car list **)
-
-let normalize_coefficients k l dt coefficients =
-  imap (fun i c -> k.odiv (k.omul c dt) (fzpow k l (Z.of_nat i))) coefficients
-
-(** val denormalize_coefficients :
-    ops -> car -> car -> car list -> car list **)
-
-let denormalize_coefficients k l dt normalized_coefficients =
-  imap (fun i c_n -> k.omul (k.odiv c_n dt) (fzpow k l (Z.of_nat i)))
-    normalized_coefficients
-
-(** val normalize_convection_scale : ops -> car -> car -> car -> car **)
-
-let normalize_convection_scale k l dt convection_scale =
-  k.odiv (k.omul convection_scale dt) l
-
-(** val denormalize_convection_scale : ops -> car -> car -> car -> car **)
-
-let denormalize_convection_scale k l dt normalized_convection_scale =
-  k.omul (k.odiv normalized_convection_scale dt) l
-
-(** val normalize_gradient_norm_scale : ops -> car -> car -> car -> car **)
-
-let normalize_gradient_norm_scale k l dt gradient_norm_scale =
-  k.odiv (k.omul gradient_norm_scale dt) (fpow k l (S (S O)))
-
-(** val denormalize_gradient_norm_scale : ops -> car -> car -> car -> car **)
-
-let denormalize_gradient_norm_scale k l dt normalized_gradient_norm_scale =
-  k.omul (k.odiv normalized_gradient_norm_scale dt) (fpow k l (S (S O)))
-
-(** val normalize_polynomial_scales :
-    ops -> car -> car -> car list -> car list **)
-
-let normalize_polynomial_scales k _ dt polynomial_scales =
-  map (fun c -> k.omul c dt) polynomial_scales
-
-(** val denormalize_polynomial_scales :
-    ops -> car -> car -> car list -> car list **)
-
-let denormalize_polynomial_scales k _ dt normalized_polynomial_scales =
-  map (fun c_n -> k.odiv c_n dt) normalized_polynomial_scales
-
-(** val reduce_normalized_coefficients_to_difficulty :
-    ops -> car -> car -> car list -> car list **)
-
-let reduce_normalized_coefficients_to_difficulty k d n normalized_coefficients =
-  set0 k
-    (imap (fun j alpha ->
-      k.omul
-        (k.omul (k.omul alpha (fzpow k n (Z.of_nat j)))
-          (fzpow k (fz k (Zpos (XO XH))) (Z.sub (Z.of_nat j) (Zpos XH)))) d)
-      normalized_coefficients) normalized_coefficients
-
-(** val extract_normalized_coefficients_from_difficulty :
-    ops -> car -> car -> car list -> car list **)
-
-let extract_normalized_coefficients_from_difficulty k d n difficulty_coefficients =
-  set0 k
-    (imap (fun j gamma ->
-      k.odiv gamma
-        (k.omul
-          (k.omul (fzpow k n (Z.of_nat j))
-            (fzpow k (fz k (Zpos (XO XH))) (Z.sub (Z.of_nat j) (Zpos XH)))) d))
-      difficulty_coefficients) difficulty_coefficients
-
-(** val reduce_normalized_convection_scale_to_difficulty :
-    ops -> car -> car -> car -> car -> car **)
-
-let reduce_normalized_convection_scale_to_difficulty k d n m normalized_convection_scale =
-  k.omul (k.omul (k.omul normalized_convection_scale m) n) d
-
-(** val extract_normalized_convection_scale_from_difficulty :
-    ops -> car -> car -> car -> car -> car **)
-
-let extract_normalized_convection_scale_from_difficulty k d n m difficulty_convection_scale =
-  k.odiv difficulty_convection_scale (k.omul (k.omul m n) d)
-
-(** val reduce_normalized_gradient_norm_scale_to_difficulty :
-    ops -> car -> car -> car -> car -> car **)
-
-let reduce_normalized_gradient_norm_scale_to_difficulty k d n m normalized_gradient_norm_scale =
-  k.omul
-    (k.omul (k.omul normalized_gradient_norm_scale m) (fpow k n (S (S O)))) d
-
-(** val extract_normalized_gradient_norm_scale_from_difficulty :
-    ops -> car -> car -> car -> car -> car **)
-
-let extract_normalized_gradient_norm_scale_from_difficulty k d n m difficulty_gradient_norm_scale =
-  k.odiv difficulty_gradient_norm_scale
-    (k.omul (k.omul m (fpow k n (S (S O)))) d)
-
-(** val reduce_normalized_nonlinear_scales_to_difficulty :
-    ops -> car -> car -> car -> car list -> car list **)
-
-let reduce_normalized_nonlinear_scales_to_difficulty k d n m normalized_nonlinear_scales =
-  (nth O normalized_nonlinear_scales k.o0) :: ((reduce_normalized_convection_scale_to_difficulty
-                                                 k d n m
-                                                 (nth (S O)
-                                                   normalized_nonlinear_scales
-                                                   k.o0)) :: ((reduce_normalized_gradient_norm_scale_to_difficulty
-                                                                k d n m
-                                                                (nth (S (S
-                                                                  O))
-                                                                  normalized_nonlinear_scales
-                                                                  k.o0)) :: []))
-
-(** val extract_normalized_nonlinear_scales_from_difficulty :
-    ops -> car -> car -> car -> car list -> car list **)
-
-let extract_normalized_nonlinear_scales_from_difficulty k d n m nonlinear_difficulties =
-  (nth O nonlinear_difficulties k.o0) :: ((extract_normalized_convection_scale_from_difficulty
-                                            k d n m
-                                            (nth (S O) nonlinear_difficulties
-                                              k.o0)) :: ((extract_normalized_gradient_norm_scale_from_difficulty
-                                                           k d n m
-                                                           (nth (S (S O))
-                                                             nonlinear_difficulties
-                                                             k.o0)) :: []))
-
-(** val wave_mode :
-    ops -> car -> car -> car -> car -> car -> car -> car -> bool -> car ->
-    car -> car * car **)
-
-let wave_mode k ii s c rho dt ep em is_dc h v =
-  let g = if k.oeqb rho k.o0 then k.o1 else rho in
-  let w = k.omul (k.omul (k.omul ii c) g) h in
-  let pos = k.omul s (k.oadd w v) in
-  let neg = k.omul s (k.osub w v) in
-  let pos' = k.omul ep pos in
-  let neg' = k.omul em neg in
-  let w' = k.omul s (k.oadd pos' neg') in
-  let v' = k.omul s (k.osub pos' neg') in
-  let h' = k.odiv w' (k.omul (k.omul ii c) g) in
-  ((if is_dc then k.oadd h' (k.omul dt v) else h'), v')
 
 (** val fftfreq : z -> z -> z **)
 
@@ -2820,6 +2496,1336 @@ let gray_scott k m p3 nD f kr u0 u1 =
       (k.osub (k.omul (k.omul f nD) (delta0 k k0)) (k.omul f (m (m u0) k0)))
       (p3 u0 u1 u1 k0)) :: ((fun k0 ->
     k.oadd (k.omul (k.oopp (k.oadd f kr)) (m (m u1) k0)) (p3 u0 u1 u1 k0)) :: [])
+
+(** val dCQ : ops **)
+
+let dCQ =
+  dualOps cQ
+
+(** val dcr : q -> q -> car **)
+
+let dcr q0 t =
+  Obj.magic { val0 = (cr q0); eps = (cr t) }
+
+(** val dk : car -> car **)
+
+let dk x =
+  Obj.magic dconst cQ x
+
+(** val put_dual : car list -> q list **)
+
+let put_dual l =
+  flat_map (fun d ->
+    put_cx ((Obj.magic d).val0 :: ((Obj.magic d).eps :: []))) l
+
+(** val take_dual : car list -> car list -> car list **)
+
+let rec take_dual v t =
+  match v with
+  | [] -> []
+  | x :: v' ->
+    (match t with
+     | [] -> []
+     | y :: t' -> (Obj.magic { val0 = x; eps = y }) :: (take_dual v' t'))
+
+(** val lookupD : (z list * car) list -> z list -> car **)
+
+let rec lookupD l k =
+  match l with
+  | [] -> Obj.magic dzero cQ
+  | p :: r -> let (j, v) = p in if idx_eqb j k then v else lookupD r k
+
+(** val run_dsym : q list -> q list **)
+
+let run_dsym a =
+  let cls = qz (getq a O) in
+  let d = qn (getq a (S O)) in
+  let s = cr (getq a (S (S O))) in
+  let k = map qz (firstn d (skipn (S (S (S O))) a)) in
+  let np = qn (getq a (add (S (S (S O))) d)) in
+  let p = firstn np (skipn (add (S (S (S (S O)))) d) a) in
+  let t = firstn np (skipn (add (add (S (S (S (S O)))) d) np) a) in
+  let d0 = map dk (dop cQ ciQ s k) in
+  let pd = map2 dcr p t in
+  let g = fun i -> nth i (Obj.magic pd) (dzero cQ) in
+  let b = fun i -> qb (getq p i) in
+  let rows = fun l -> chunks d d l in
+  put_dual
+    ((match cls with
+      | Zpos p0 ->
+        (match p0 with
+         | XI p1 ->
+           (match p1 with
+            | XI p2 ->
+              (match p2 with
+               | XI _ -> poly_sym dCQ pd d0
+               | XO p3 ->
+                 (match p3 with
+                  | XH ->
+                    sym_fisher dCQ (Obj.magic g O) (Obj.magic g (S O)) d0
+                  | _ -> poly_sym dCQ pd d0)
+               | XH ->
+                 sym_kdv dCQ (b O) (b (S O)) (Obj.magic g (S (S O)))
+                   (Obj.magic g (S (S (S O))))
+                   (Obj.magic g (S (S (S (S O))))) d0)
+            | XO p2 ->
+              (match p2 with
+               | XI p3 ->
+                 (match p3 with
+                  | XH ->
+                    sym_gray_scott dCQ (Obj.magic g O) (Obj.magic g (S O))
+                      (qn (getq p (S (S O)))) d0
+                  | _ -> poly_sym dCQ pd d0)
+               | XO p3 ->
+                 (match p3 with
+                  | XH ->
+                    sym_navier_stokes dCQ (Obj.magic g O) (Obj.magic g (S O))
+                      d0
+                  | _ -> poly_sym dCQ pd d0)
+               | XH -> sym_hyper_diffusion dCQ (b O) (Obj.magic g (S O)) d0)
+            | XH ->
+              sym_advection_diffusion dCQ (firstn d pd) (rows (skipn d pd)) d0)
+         | XO p1 ->
+           (match p1 with
+            | XI p2 ->
+              (match p2 with
+               | XI p3 ->
+                 (match p3 with
+                  | XH ->
+                    sym_swift_hohenberg dCQ (Obj.magic g O)
+                      (Obj.magic g (S O)) d0
+                  | _ -> poly_sym dCQ pd d0)
+               | XO p3 ->
+                 (match p3 with
+                  | XH ->
+                    sym_allen_cahn dCQ (Obj.magic g O) (Obj.magic g (S O)) d0
+                  | _ -> poly_sym dCQ pd d0)
+               | XH -> sym_burgers dCQ (Obj.magic g O) d0)
+            | XO p2 ->
+              (match p2 with
+               | XI p3 ->
+                 (match p3 with
+                  | XH ->
+                    sym_cahn_hilliard dCQ (Obj.magic g O) (Obj.magic g (S O))
+                      (Obj.magic g (S (S O))) d0
+                  | _ -> poly_sym dCQ pd d0)
+               | XO p3 ->
+                 (match p3 with
+                  | XH -> sym_ks dCQ (Obj.magic g O) (Obj.magic g (S O)) d0
+                  | _ -> poly_sym dCQ pd d0)
+               | XH -> sym_dispersion dCQ (b O) (firstn d (skipn (S O) pd)) d0)
+            | XH -> sym_diffusion dCQ (rows pd) d0)
+         | XH -> sym_advection dCQ (firstn d pd) d0)
+      | _ -> poly_sym dCQ pd d0) :: [])
+
+(** val run_dterm : q list -> q list **)
+
+let run_dterm a =
+  let term = qz (getq a O) in
+  let d = qn (getq a (S O)) in
+  let n = qz (getq a (S (S O))) in
+  let kc = qz (getq a (S (S (S O)))) in
+  let s = dk (cr (getq a (S (S (S (S (S O))))))) in
+  let np = qn (getq a (S (S (S (S (S (S O))))))) in
+  let ps = firstn np (skipn (S (S (S (S (S (S (S O))))))) a) in
+  let ts = firstn np (skipn (add (S (S (S (S (S (S (S O))))))) np) a) in
+  let rest = skipn (add (add (S (S (S (S (S (S (S O))))))) np) np) a in
+  let nch = qn (getq rest O) in
+  let band = bandD d kc in
+  let nb = length band in
+  let vals = take_cx (firstn (mul (mul (S (S O)) nb) nch) (skipn (S O) rest))
+  in
+  let tans = take_cx (skipn (add (S O) (mul (mul (S (S O)) nb) nch)) rest) in
+  let chans =
+    map (fun vt -> lookupD (combine band vt))
+      (chunks nb nch (take_dual vals tans))
+  in
+  let pd = map2 dcr ps ts in
+  let g = fun i -> nth i (Obj.magic pd) (dzero cQ) in
+  let ii = dk ciQ in
+  let m = msk dCQ kc in
+  let p2 = prod2 dCQ d n kc in
+  let p3 = prod3 dCQ d n kc in
+  let nD = fpow dCQ (dk (cq_of_z n)) d in
+  let ch = fun i -> nth i chans (fzero dCQ) in
+  let outs =
+    match term with
+    | Z0 -> []
+    | Zpos p ->
+      (match p with
+       | XI p0 ->
+         (match p0 with
+          | XI p1 ->
+            (match p1 with
+             | XI _ -> []
+             | XO p4 ->
+               (match p4 with
+                | XI _ -> []
+                | XO _ -> []
+                | XH ->
+                  gray_scott dCQ m p3 nD (Obj.magic g O) (Obj.magic g (S O))
+                    (ch O) (ch (S O)))
+             | XH ->
+               (general_nonlinear dCQ m p2 p3 ii s d nD (Obj.magic g O)
+                 (Obj.magic g (S O)) (Obj.magic g (S (S O)))
+                 (qb (getq ps (S (S (S O))))) (ch O)) :: [])
+          | XO p1 ->
+            (match p1 with
+             | XI _ -> []
+             | XO p4 ->
+               (match p4 with
+                | XH -> projected_conv dCQ p2 ii s d chans
+                | _ -> [])
+             | XH ->
+               (gradient_norm dCQ p2 ii s d (Obj.magic g O)
+                 (qb (getq ps (S O))) (ch O)) :: [])
+          | XH -> (conv_sc_cons dCQ p2 ii s d (Obj.magic g O) (ch O)) :: [])
+       | XO p0 ->
+         (match p0 with
+          | XI p1 ->
+            (match p1 with
+             | XI _ -> []
+             | XO p4 ->
+               (match p4 with
+                | XH ->
+                  (cahn_hilliard dCQ p3 ii s d (Obj.magic g O) (ch O)) :: []
+                | _ -> [])
+             | XH ->
+               (polynomial dCQ m p2 p3 nD (Obj.magic g O) (Obj.magic g (S O))
+                 (Obj.magic g (S (S O))) (Obj.magic g (S (S (S O)))) 
+                 (ch O)) :: [])
+          | XO p1 ->
+            (match p1 with
+             | XI p4 -> (match p4 with
+                         | XH -> leray dCQ ii s d chans
+                         | _ -> [])
+             | XO p4 ->
+               (match p4 with
+                | XH ->
+                  (vorticity_conv dCQ p2 ii s d (Obj.magic g O) (ch O)) :: []
+                | _ -> [])
+             | XH ->
+               (conv_sc_noncons dCQ p2 ii s d (Obj.magic g O) (ch O)) :: [])
+          | XH -> conv_mc_noncons dCQ p2 ii s d (Obj.magic g O) chans)
+       | XH -> conv_mc_cons dCQ p2 ii s d (Obj.magic g O) chans)
+    | Zneg _ -> []
+  in
+  put_dual (flat_map (fun f -> map f band) outs)
+
+(** val run_c07 : z -> q list -> q list **)
+
+let run_c07 sub0 a =
+  match sub0 with
+  | Zpos p ->
+    (match p with
+     | XI _ -> []
+     | XO p0 -> (match p0 with
+                 | XH -> run_dterm a
+                 | _ -> [])
+     | XH -> run_dsym a)
+  | _ -> []
+
+(** val scan :
+    ('a1 -> 'a2 -> 'a1 * 'a3) -> 'a1 -> 'a2 list -> 'a1 * 'a3 list **)
+
+let rec scan f c = function
+| [] -> (c, [])
+| x :: r ->
+  let (c', y) = f c x in let (cf, ys) = scan f c' r in (cf, (y :: ys))
+
+(** val rollout : ('a1 -> 'a1) -> nat -> bool -> 'a1 -> 'a1 list **)
+
+let rollout f n include_init u0 =
+  let scan_fn = fun u _ -> let u' = f u in (u', u') in
+  let trj = snd (scan scan_fn u0 (repeat () n)) in
+  if include_init then u0 :: trj else trj
+
+(** val repeat_fn : ('a1 -> 'a1) -> nat -> 'a1 -> 'a1 **)
+
+let repeat_fn f n u0 =
+  let scan_fn = fun u _ -> let u' = f u in (u', ()) in
+  fst (scan scan_fn u0 (repeat () n))
+
+type 'x auxarg =
+| AuxConst of 'x
+| AuxSeq of 'x list
+
+(** val aux_seq : nat -> bool -> 'a1 auxarg -> 'a1 list option **)
+
+let aux_seq n constant_aux a =
+  if constant_aux
+  then (match a with
+        | AuxConst x -> Some (repeat x n)
+        | AuxSeq _ -> None)
+  else (match a with
+        | AuxConst _ -> None
+        | AuxSeq xs -> if Nat.eqb (length xs) n then Some xs else None)
+
+(** val rollout_aux :
+    ('a1 -> 'a2 -> 'a1) -> nat -> bool -> bool -> 'a1 -> 'a2 auxarg -> 'a1
+    list option **)
+
+let rollout_aux f n include_init constant_aux u0 a =
+  match aux_seq n constant_aux a with
+  | Some xs ->
+    let scan_fn = fun u x -> let u' = f u x in (u', u') in
+    let trj = snd (scan scan_fn u0 xs) in
+    Some (if include_init then u0 :: trj else trj)
+  | None -> None
+
+(** val repeat_aux :
+    ('a1 -> 'a2 -> 'a1) -> nat -> bool -> 'a1 -> 'a2 auxarg -> 'a1 option **)
+
+let repeat_aux f n constant_aux u0 a =
+  match aux_seq n constant_aux a with
+  | Some xs ->
+    let scan_fn = fun u x -> let u' = f u x in (u', ()) in
+    Some (fst (scan scan_fn u0 xs))
+  | None -> None
+
+(** val dynamic_slice : 'a1 list -> nat -> nat -> 'a1 list **)
+
+let dynamic_slice l i len =
+  firstn len (skipn (Nat.min i (sub (length l) len)) l)
+
+(** val stack_sub : 'a1 list -> nat -> 'a1 list list option **)
+
+let stack_sub trj sub_len =
+  let t = length trj in
+  if Nat.ltb t sub_len
+  then None
+  else Some
+         (map (fun i -> dynamic_slice trj i sub_len)
+           (seq O (add (sub t sub_len) (S O))))
+
+(** val all_same : nat list -> bool **)
+
+let all_same = function
+| [] -> true
+| x :: r -> forallb (Nat.eqb x) r
+
+(** val stack_sub_tree : 'a1 list list -> nat -> 'a1 list list list option **)
+
+let stack_sub_tree leaves sub_len =
+  match leaves with
+  | [] -> None
+  | l0 :: _ ->
+    if all_same (map length leaves)
+    then if Nat.ltb (length l0) sub_len
+         then None
+         else Some
+                (map (fun leaf ->
+                  match stack_sub leaf sub_len with
+                  | Some w -> w
+                  | None -> []) leaves)
+    else None
+
+(** val vmap : ('a1 -> 'a2) -> 'a1 list -> 'a2 list **)
+
+let vmap =
+  map
+
+(** val vmap2 : ('a3 -> 'a1 -> 'a2) -> 'a3 list -> 'a1 list -> 'a2 list **)
+
+let vmap2 f ps us =
+  map (fun pu -> f (fst pu) (snd pu)) (combine ps us)
+
+(** val upd : nat -> 'a1 -> 'a1 list -> 'a1 list **)
+
+let rec upd i x = function
+| [] -> []
+| u :: r -> (match i with
+             | O -> x :: r
+             | S j -> u :: (upd j x r))
+
+(** val zip_cons : 'a1 list -> 'a1 list list -> 'a1 list list **)
+
+let rec zip_cons r cols =
+  match r with
+  | [] -> []
+  | x :: r' ->
+    (match cols with
+     | [] -> []
+     | c :: cols' -> (x :: c) :: (zip_cons r' cols'))
+
+(** val transpose : nat -> 'a1 list list -> 'a1 list list **)
+
+let rec transpose w = function
+| [] -> repeat [] w
+| r :: rows' -> zip_cons r (transpose w rows')
+
+(** val aff6 : z -> z -> z -> z **)
+
+let aff6 a b u =
+  Z.add (Z.mul a u) b
+
+(** val flatz : z list list -> q list **)
+
+let flatz m =
+  map zq (concat m)
+
+(** val run_c06 : z -> q list -> q list **)
+
+let run_c06 sub0 a =
+  let n = qn (getq a O) in
+  let inc = qb (getq a (S O)) in
+  let ca = qz (getq a (S (S O))) in
+  let cb = qz (getq a (S (S (S O)))) in
+  let b = qn (getq a (S (S (S (S O))))) in
+  let rest = map qz (skipn (S (S (S (S (S O))))) a) in
+  (match sub0 with
+   | Zpos p ->
+     (match p with
+      | XI p0 ->
+        (match p0 with
+         | XI p1 ->
+           (match p1 with
+            | XH -> map zq (repeat_fn (vmap (aff6 ca cb)) n (firstn b rest))
+            | _ -> [])
+         | XO p1 ->
+           (match p1 with
+            | XH ->
+              let ps = firstn b rest in
+              let us = firstn b (skipn b rest) in
+              flatz (rollout (vmap2 (fun p2 -> aff6 p2 cb) ps) n inc us)
+            | _ -> [])
+         | XH -> flatz (rollout (vmap (aff6 ca cb)) n inc (firstn b rest)))
+      | XO p0 ->
+        (match p0 with
+         | XI p1 ->
+           (match p1 with
+            | XH -> map zq (vmap (repeat_fn (aff6 ca cb) n) (firstn b rest))
+            | _ -> [])
+         | XO p1 ->
+           (match p1 with
+            | XI _ -> []
+            | XO p2 ->
+              (match p2 with
+               | XH ->
+                 map zq
+                   (vmap (aff6 ca cb) (upd n (nth b rest Z0) (firstn b rest)))
+               | _ -> [])
+            | XH ->
+              let ps = firstn b rest in
+              let us = firstn b (skipn b rest) in
+              flatz (vmap2 (fun p2 u -> rollout (aff6 p2 cb) n inc u) ps us))
+         | XH ->
+           flatz
+             (transpose b (rollout (vmap (aff6 ca cb)) n inc (firstn b rest))))
+      | XH -> flatz (vmap (rollout (aff6 ca cb) n inc) (firstn b rest)))
+   | _ -> [])
+
+(** val flen : ops -> car list -> car **)
+
+let flen k l =
+  fz k (Z.of_nat (length l))
+
+(** val mean : ops -> car list -> car **)
+
+let mean k l =
+  k.odiv (fsum k l) (flen k l)
+
+(** val center : ops -> car list -> car list **)
+
+let center k l =
+  map (fun x -> k.osub x (mean k l)) l
+
+(** val sq : ops -> car -> car **)
+
+let sq k x =
+  k.omul x x
+
+(** val variance : ops -> car list -> car **)
+
+let variance k l =
+  mean k (map (sq k) (center k l))
+
+(** val normalize_with :
+    ops -> (car list -> car) -> (car list -> car) -> (car list -> car) ->
+    bool -> bool -> bool -> car list -> car list **)
+
+let normalize_with k fmean fstd fmaxabs zero_mean std_one max_one ic =
+  let ic0 = if zero_mean then map (fun x -> k.osub x (fmean ic)) ic else ic in
+  let ic1 = if std_one then map (fun x -> k.odiv x (fstd ic0)) ic0 else ic0 in
+  if max_one then map (fun x -> k.odiv x (fmaxabs ic1)) ic1 else ic1
+
+(** val fabs : ops -> (car -> car -> bool) -> car -> car **)
+
+let fabs k leb0 x =
+  if leb0 k.o0 x then x else k.oopp x
+
+(** val fmax2 : ops -> (car -> car -> bool) -> car -> car -> car **)
+
+let fmax2 _ leb0 a b =
+  if leb0 a b then b else a
+
+(** val fmin2 : ops -> (car -> car -> bool) -> car -> car -> car **)
+
+let fmin2 _ leb0 a b =
+  if leb0 a b then a else b
+
+(** val lmax : ops -> (car -> car -> bool) -> car list -> car **)
+
+let lmax k leb0 = function
+| [] -> k.o0
+| x :: r -> fold_left (fmax2 k leb0) r x
+
+(** val lmin : ops -> (car -> car -> bool) -> car list -> car **)
+
+let lmin k leb0 = function
+| [] -> k.o0
+| x :: r -> fold_left (fmin2 k leb0) r x
+
+(** val maxabs : ops -> (car -> car -> bool) -> car list -> car **)
+
+let maxabs k leb0 l =
+  lmax k leb0 (map (fabs k leb0) l)
+
+(** val std : ops -> (car -> car) -> car list -> car **)
+
+let std k fsqrt l =
+  fsqrt (variance k l)
+
+(** val normalize_ic :
+    ops -> (car -> car -> bool) -> (car -> car) -> bool -> bool -> bool ->
+    car list -> car list **)
+
+let normalize_ic k leb0 fsqrt =
+  normalize_with k (mean k) (std k fsqrt) (maxabs k leb0)
+
+(** val clamp :
+    ops -> (car -> car -> bool) -> car -> car -> car list -> car list **)
+
+let clamp k leb0 lo hi ic =
+  let above = map (fun x -> k.osub x (lmin k leb0 ic)) ic in
+  let unit1 = map (fun x -> k.odiv x (lmax k leb0 above)) above in
+  map (fun x -> k.oadd (k.omul x (k.osub hi lo)) lo) unit1
+
+(** val scaled : ops -> car -> car list -> car list **)
+
+let scaled k s ic =
+  map (fun x -> k.omul x s) ic
+
+(** val gridD : nat -> nat -> nat list list **)
+
+let rec gridD d n =
+  match d with
+  | O -> [] :: []
+  | S d' -> flat_map (fun a -> map (fun x -> a :: x) (gridD d' n)) (seq O n)
+
+(** val sumD : ops -> nat -> nat -> (nat list -> car) -> car **)
+
+let sumD k d n f =
+  fsum k (map f (gridD d n))
+
+(** val npts : ops -> nat -> nat -> car **)
+
+let npts k d n =
+  fpow k (fz k (Z.of_nat n)) d
+
+(** val chi : ops -> car -> nat list -> nat list -> car **)
+
+let rec chi k w' j k0 =
+  match j with
+  | [] -> k.o1
+  | a :: j' ->
+    (match k0 with
+     | [] -> k.o1
+     | b :: k' -> k.omul (fpow k w' (mul a b)) (chi k w' j' k'))
+
+(** val idftD :
+    ops -> nat -> nat -> car -> (nat list -> car) -> nat list -> car **)
+
+let idftD k d n w' u j =
+  k.odiv (sumD k d n (fun k0 -> k.omul (u k0) (chi k w' j k0))) (npts k d n)
+
+(** val meanD : ops -> nat -> nat -> (nat list -> car) -> car **)
+
+let meanD k d n u =
+  k.odiv (sumD k d n u) (npts k d n)
+
+(** val tfs_dc : ops -> car -> nat -> nat -> car **)
+
+let tfs_dc k offset d n =
+  k.omul offset (npts k d n)
+
+(** val is_zero_idx : z list -> bool **)
+
+let is_zero_idx idx0 =
+  forallb (Z.eqb Z0) idx0
+
+(** val grf_amp_sq_even : ops -> car -> nat -> nat -> z -> z list -> car **)
+
+let grf_amp_sq_even k s m d n idx0 =
+  if is_zero_idx idx0
+  then k.o1
+  else k.oinv (fpow k (k.omul (k.omul s s) (fz k (norm2 (wnvec d n idx0)))) m)
+
+(** val spatial : z -> z -> z list **)
+
+let spatial d n =
+  repeat n (Z.to_nat d)
+
+(** val bdim : z -> z -> z option **)
+
+let bdim a b =
+  if Z.eqb a b
+  then Some a
+  else if Z.eqb a (Zpos XH)
+       then Some b
+       else if Z.eqb b (Zpos XH) then Some a else None
+
+(** val bcast : z list -> z list -> z list option **)
+
+let rec bcast a b =
+  match a with
+  | [] -> (match b with
+           | [] -> Some []
+           | _ :: _ -> None)
+  | x :: a' ->
+    (match b with
+     | [] -> None
+     | y :: b' ->
+       (match bdim x y with
+        | Some d ->
+          (match bcast a' b' with
+           | Some r -> Some (d :: r)
+           | None -> None)
+        | None -> None))
+
+(** val slice0 : z -> z -> z list -> z list **)
+
+let slice0 lo hi = function
+| [] -> []
+| d :: r -> (Z.max Z0 (Z.sub (Z.min hi d) (Z.min lo d))) :: r
+
+(** val disc_mask_from : z list -> z list -> nat -> z list option **)
+
+let disc_mask_from init xshape nlim =
+  fold_left (fun acc i ->
+    match acc with
+    | Some m ->
+      let s = slice0 (Z.of_nat i) (Z.add (Z.of_nat i) (Zpos XH)) xshape in
+      (match bcast m s with
+       | Some m1 -> bcast m1 s
+       | None -> None)
+    | None -> None) (seq O nlim) (Some init)
+
+type gen =
+| GBase of z * z
+| GScaled of gen
+| GClamp of gen
+| GMulti of gen list
+
+(** val k_DISC : z **)
+
+let k_DISC =
+  Zpos (XO (XO XH))
+
+(** val k_BLOBS : z **)
+
+let k_BLOBS =
+  Zpos (XI (XO XH))
+
+(** val k_SINE : z **)
+
+let k_SINE =
+  Zpos (XO (XI XH))
+
+(** val kind_has_fun : z -> bool **)
+
+let kind_has_fun k =
+  (||) ((||) (Z.eqb k k_DISC) (Z.eqb k k_BLOBS)) (Z.eqb k k_SINE)
+
+(** val base_ctor_raises : z -> z -> bool **)
+
+let base_ctor_raises k d =
+  (&&) (Z.eqb k k_SINE) (negb (Z.eqb d (Zpos XH)))
+
+(** val gen_dims : gen -> z option **)
+
+let rec gen_dims = function
+| GBase (_, d) -> Some d
+| GScaled g' -> gen_dims g'
+| GClamp g' -> gen_dims g'
+| GMulti _ -> None
+
+(** val sh_eqb : z list -> z list -> bool **)
+
+let rec sh_eqb a b =
+  match a with
+  | [] -> (match b with
+           | [] -> true
+           | _ :: _ -> false)
+  | x :: a' ->
+    (match b with
+     | [] -> false
+     | y :: b' -> (&&) (Z.eqb x y) (sh_eqb a' b'))
+
+(** val cat2 : z list option -> z list option -> z list option **)
+
+let cat2 acc o =
+  match acc with
+  | Some l ->
+    (match l with
+     | [] -> None
+     | c2 :: sp1 ->
+       (match o with
+        | Some l0 ->
+          (match l0 with
+           | [] -> None
+           | c3 :: sp2 ->
+             if sh_eqb sp1 sp2 then Some ((Z.add c2 c3) :: sp1) else None)
+        | None -> None))
+  | None -> None
+
+(** val concat0 : z list option list -> z list option **)
+
+let concat0 = function
+| [] -> None
+| o :: r ->
+  fold_left cat2 r
+    (match o with
+     | Some l0 -> (match l0 with
+                   | [] -> None
+                   | c :: sp -> Some (c :: sp))
+     | None -> None)
+
+(** val gen_shape : z -> gen -> z list option **)
+
+let rec gen_shape n = function
+| GBase (k, d) ->
+  if base_ctor_raises k d then None else Some ((Zpos XH) :: (spatial d n))
+| GScaled g' ->
+  (match gen_dims g' with
+   | Some _ -> gen_shape n g'
+   | None -> None)
+| GClamp g' ->
+  (match gen_dims g' with
+   | Some _ -> gen_shape n g'
+   | None -> None)
+| GMulti gs -> concat0 (map (gen_shape n) gs)
+
+(** val supports_fun : gen -> bool **)
+
+let rec supports_fun = function
+| GBase (k, _) -> kind_has_fun k
+| GScaled g' -> supports_fun g'
+| GClamp _ -> false
+| GMulti gs -> forallb supports_fun gs
+
+(** val qc_leb : qc -> qc -> bool **)
+
+let qc_leb x y =
+  qle_bool (this x) (this y)
+
+(** val rep : z list -> z -> z list **)
+
+let rep l n =
+  concat (repeat l (Z.to_nat n))
+
+(** val shape_eqb : z list -> z list -> bool **)
+
+let rec shape_eqb a b =
+  match a with
+  | [] -> (match b with
+           | [] -> true
+           | _ :: _ -> false)
+  | x :: a' ->
+    (match b with
+     | [] -> false
+     | y :: b' -> (&&) (Z.eqb x y) (shape_eqb a' b'))
+
+(** val all_eqb : z list -> bool **)
+
+let all_eqb = function
+| [] -> false
+| x :: r -> forallb (Z.eqb x) r
+
+(** val gen_spatial_shape : z -> z -> z list **)
+
+let gen_spatial_shape d n =
+  rep (n :: []) d
+
+(** val base_call_raises : z -> z -> z -> z list -> bool **)
+
+let base_call_raises c d n u =
+  negb (shape_eqb u (app (c :: []) (gen_spatial_shape d n)))
+
+(** val repeated_call_raises : z -> z -> z -> z list -> bool **)
+
+let repeated_call_raises c d n u =
+  negb (shape_eqb u (app (c :: []) (gen_spatial_shape d n)))
+
+(** val poisson_call_raises : z -> z -> z list -> bool **)
+
+let poisson_call_raises d n f =
+  negb (shape_eqb (skipn (S O) f) (gen_spatial_shape d n))
+
+(** val laplace_order_raises : z -> bool **)
+
+let laplace_order_raises order =
+  negb (Z.eqb (Z.modulo order (Zpos (XO XH))) Z0)
+
+(** val gip_raises : z -> z -> z list -> bool **)
+
+let gip_raises order d velocity =
+  (||) (negb (Z.eqb (Z.modulo order (Zpos (XO XH))) (Zpos XH)))
+    ((&&) (negb (negb (Z.eqb (Z.modulo order (Zpos (XO XH))) (Zpos XH))))
+      (negb (shape_eqb velocity (d :: []))))
+
+(** val make_incompressible_raises : z list -> bool **)
+
+let make_incompressible_raises field0 =
+  negb (Z.eqb (nth O field0 Z0) (Z.of_nat (length (skipn (S O) field0))))
+
+(** val ifft_raises : z -> bool -> bool -> z list -> bool **)
+
+let ifft_raises d d_none n_none field_hat =
+  (&&) n_none
+    (negb
+      (Z.geb
+        (if d_none then Z.sub (Z.of_nat (length field_hat)) (Zpos XH) else d)
+        (Zpos (XO XH))))
+
+(** val ic_options_raise : bool -> bool -> bool -> bool **)
+
+let ic_options_raise zero_mean std_one max_one =
+  (||) ((&&) (negb zero_mean) std_one)
+    ((&&) (negb ((&&) (negb zero_mean) std_one)) ((&&) std_one max_one))
+
+(** val spatial_norm_raises : bool -> z -> bool **)
+
+let spatial_norm_raises ref_none mode =
+  (||) ((&&) ref_none (Z.eqb mode (Zpos XH)))
+    ((&&) ((&&) ref_none (negb (Z.eqb mode (Zpos XH))))
+      (Z.eqb mode (Zpos (XO XH))))
+
+(** val fourier_norm_raises : bool -> z -> bool **)
+
+let fourier_norm_raises ref_none mode =
+  (&&) ref_none (Z.eqb mode (Zpos XH))
+
+(** val general_nonlin_raises : z -> bool **)
+
+let general_nonlin_raises scale_len =
+  negb
+    (Z.eqb (Z.of_nat (length (repeat Z0 (Z.to_nat scale_len)))) (Zpos (XI
+      XH)))
+
+(** val general_nonlin_stepper_raises : z -> bool **)
+
+let general_nonlin_stepper_raises coef_len =
+  negb
+    (Z.eqb (Z.of_nat (length (repeat Z0 (Z.to_nat coef_len)))) (Zpos (XI XH)))
+
+(** val vorticity_conv_raises : z -> bool **)
+
+let vorticity_conv_raises d =
+  negb (Z.eqb d (Zpos (XO XH)))
+
+(** val projected_conv_raises : z -> bool **)
+
+let projected_conv_raises d =
+  negb (Z.eqb d (Zpos (XI XH)))
+
+(** val ns_vorticity_raises : z -> bool **)
+
+let ns_vorticity_raises d =
+  negb (Z.eqb d (Zpos (XO XH)))
+
+(** val kolmogorov_vorticity_raises : z -> bool **)
+
+let kolmogorov_vorticity_raises d =
+  negb (Z.eqb d (Zpos (XO XH)))
+
+(** val ns_velocity_raises : z -> bool **)
+
+let ns_velocity_raises d =
+  negb (Z.eqb d (Zpos (XI XH)))
+
+(** val kolmogorov_velocity_raises : z -> bool **)
+
+let kolmogorov_velocity_raises d =
+  negb (Z.eqb d (Zpos (XI XH)))
+
+(** val general_vorticity_raises : z -> bool **)
+
+let general_vorticity_raises d =
+  negb (Z.eqb d (Zpos (XO XH)))
+
+(** val gray_scott_raises : z list -> bool **)
+
+let gray_scott_raises u_hat =
+  negb (Z.eqb (nth O u_hat Z0) (Zpos (XO XH)))
+
+(** val convection_cons_raises : z -> z list -> bool **)
+
+let convection_cons_raises d u_hat =
+  negb (Z.eqb (nth O u_hat Z0) d)
+
+(** val convection_noncons_raises : z -> z list -> bool **)
+
+let convection_noncons_raises d u_hat =
+  negb (Z.eqb (nth O u_hat Z0) d)
+
+(** val random_sine_raises : z -> bool -> bool -> bool -> bool **)
+
+let random_sine_raises d offset_zero std_one max_one =
+  (||)
+    ((||) (negb (Z.eqb d (Zpos XH)))
+      ((&&) (negb (negb (Z.eqb d (Zpos XH))))
+        ((&&) (negb offset_zero) std_one)))
+    ((&&)
+      ((&&) (negb (negb (Z.eqb d (Zpos XH))))
+        (negb ((&&) (negb offset_zero) std_one))) ((&&) std_one max_one))
+
+(** val stack_sub_raises : z -> z list -> bool **)
+
+let stack_sub_raises sub_len lens =
+  (||) (negb (all_eqb lens)) (Z.gtb sub_len (hd Z0 lens))
+
+(** val discontinuities_raises : bool -> bool -> bool -> bool **)
+
+let discontinuities_raises zero_mean std_one max_one =
+  (||) ((&&) (negb zero_mean) std_one)
+    ((&&) (negb ((&&) (negb zero_mean) std_one)) ((&&) std_one max_one))
+
+(** val random_discontinuities_raises : bool -> bool -> bool -> bool **)
+
+let random_discontinuities_raises zero_mean std_one max_one =
+  (||) ((&&) (negb zero_mean) std_one)
+    ((&&) (negb ((&&) (negb zero_mean) std_one)) ((&&) std_one max_one))
+
+(** val sine_waves_raises : bool -> bool -> bool -> z -> z -> z -> bool **)
+
+let sine_waves_raises offset_zero std_one max_one n_amp n_wav n_pha =
+  (||)
+    ((||) ((&&) (negb offset_zero) std_one)
+      ((&&) (negb ((&&) (negb offset_zero) std_one)) ((&&) std_one max_one)))
+    ((&&)
+      ((&&) (negb ((&&) (negb offset_zero) std_one))
+        (negb ((&&) std_one max_one)))
+      ((||)
+        (negb
+          (Z.eqb (Z.of_nat (length (repeat Z0 (Z.to_nat n_amp))))
+            (Z.of_nat (length (repeat Z0 (Z.to_nat n_wav))))))
+        (negb
+          (Z.eqb (Z.of_nat (length (repeat Z0 (Z.to_nat n_wav))))
+            (Z.of_nat (length (repeat Z0 (Z.to_nat n_pha))))))))
+
+(** val sine_waves_call_raises : bool -> bool -> z list -> bool **)
+
+let sine_waves_call_raises _ _ x =
+  negb (Z.eqb (nth O x Z0) (Zpos XH))
+
+(** val gaussian_blob_call_raises : bool -> z -> z list -> bool **)
+
+let gaussian_blob_call_raises _ pos_len x =
+  negb (Z.eqb (nth O x Z0) pos_len)
+
+(** val tfs_raises : bool -> bool -> bool -> bool **)
+
+let tfs_raises =
+  ic_options_raise
+
+(** val grf_raises : bool -> bool -> bool -> bool **)
+
+let grf_raises =
+  ic_options_raise
+
+(** val diffused_noise_raises : bool -> bool -> bool -> bool **)
+
+let diffused_noise_raises =
+  ic_options_raise
+
+(** val gen_tfs_dc : ops -> car -> car -> car **)
+
+let gen_tfs_dc k offset size =
+  k.omul offset size
+
+(** val gen_disc_shape : z list -> nat -> z list option **)
+
+let gen_disc_shape xshape nlim =
+  disc_mask_from (slice0 Z0 (Zpos XH) xshape) xshape nlim
+
+(** val parse_gen : nat -> z list -> (gen * z list) option **)
+
+let rec parse_gen fuel t =
+  match fuel with
+  | O -> None
+  | S f ->
+    (match t with
+     | [] -> None
+     | z0 :: r ->
+       (match z0 with
+        | Z0 ->
+          (match r with
+           | [] -> None
+           | k :: l ->
+             (match l with
+              | [] -> None
+              | d :: r0 -> Some ((GBase (k, d)), r0)))
+        | Zpos p ->
+          (match p with
+           | XI p0 ->
+             (match p0 with
+              | XH ->
+                (match r with
+                 | [] -> None
+                 | n :: r0 ->
+                   (match parse_gens f (Z.to_nat n) r0 with
+                    | Some p1 -> let (gs, r') = p1 in Some ((GMulti gs), r')
+                    | None -> None))
+              | _ -> None)
+           | XO p0 ->
+             (match p0 with
+              | XH ->
+                (match parse_gen f r with
+                 | Some p1 -> let (g, r') = p1 in Some ((GClamp g), r')
+                 | None -> None)
+              | _ -> None)
+           | XH ->
+             (match parse_gen f r with
+              | Some p0 -> let (g, r') = p0 in Some ((GScaled g), r')
+              | None -> None))
+        | Zneg _ -> None))
+
+(** val parse_gens : nat -> nat -> z list -> (gen list * z list) option **)
+
+and parse_gens fuel n t =
+  match fuel with
+  | O -> None
+  | S f ->
+    (match n with
+     | O -> Some ([], t)
+     | S n' ->
+       (match parse_gen f t with
+        | Some p ->
+          let (g, r) = p in
+          (match parse_gens f n' r with
+           | Some p0 -> let (gs, r') = p0 in Some ((g :: gs), r')
+           | None -> None)
+        | None -> None))
+
+(** val decode_gen : z list -> gen **)
+
+let decode_gen t =
+  match parse_gen (S (length t)) t with
+  | Some p -> let (g, _) = p in g
+  | None -> GMulti []
+
+(** val qid : car -> car **)
+
+let qid x =
+  x
+
+(** val run_c18 : z -> q list -> q list **)
+
+let run_c18 sub0 a =
+  let z0 = fun i -> qz (getq a i) in
+  let b = fun i -> qb (getq a i) in
+  let n = fun i -> qn (getq a i) in
+  let r = fun x -> (bq x) :: [] in
+  (match sub0 with
+   | Zpos p ->
+     (match p with
+      | XI p0 ->
+        (match p0 with
+         | XI p1 ->
+           (match p1 with
+            | XI _ -> []
+            | XO p2 ->
+              (match p2 with
+               | XH ->
+                 optl
+                   (option_map (map zq)
+                     (gen_disc_shape (zs (skipn (S O) a)) (n O)))
+               | _ -> [])
+            | XH ->
+              let g = fun i -> qb (getq a (S i)) in
+              (match z0 O with
+               | Z0 -> r (ic_options_raise (g O) (g (S O)) (g (S (S O))))
+               | Zpos p2 ->
+                 (match p2 with
+                  | XI p3 ->
+                    (match p3 with
+                     | XI p4 ->
+                       (match p4 with
+                        | XH ->
+                          r
+                            (sine_waves_raises (g O) (g (S O)) (g (S (S O)))
+                              (z0 (S (S (S (S O)))))
+                              (z0 (S (S (S (S (S O))))))
+                              (z0 (S (S (S (S (S (S O))))))))
+                        | _ -> [])
+                     | XO p4 ->
+                       (match p4 with
+                        | XI _ -> []
+                        | XO p5 ->
+                          (match p5 with
+                           | XH ->
+                             r
+                               (gaussian_blob_call_raises (g O)
+                                 (z0 (S (S O))) (zs (skipn (S (S (S O))) a)))
+                           | _ -> [])
+                        | XH ->
+                          r
+                            (random_discontinuities_raises (g O) (g (S O))
+                              (g (S (S O)))))
+                     | XH ->
+                       r (diffused_noise_raises (g O) (g (S O)) (g (S (S O)))))
+                  | XO p3 ->
+                    (match p3 with
+                     | XI p4 ->
+                       (match p4 with
+                        | XH ->
+                          r
+                            (random_sine_raises (z0 (S O)) (g (S O))
+                              (g (S (S O))) (g (S (S (S O)))))
+                        | _ -> [])
+                     | XO p4 ->
+                       (match p4 with
+                        | XI _ -> []
+                        | XO p5 ->
+                          (match p5 with
+                           | XH ->
+                             r
+                               (sine_waves_call_raises (g O) (g (S O))
+                                 (zs (skipn (S (S (S O))) a)))
+                           | _ -> [])
+                        | XH ->
+                          r
+                            (discontinuities_raises (g O) (g (S O))
+                              (g (S (S O)))))
+                     | XH -> r (grf_raises (g O) (g (S O)) (g (S (S O)))))
+                  | XH -> r (tfs_raises (g O) (g (S O)) (g (S (S O)))))
+               | Zneg _ -> []))
+         | XO p1 ->
+           (match p1 with
+            | XI _ -> []
+            | XO p2 ->
+              (match p2 with
+               | XH ->
+                 let d = n O in
+                 let nn = n (S O) in
+                 let w' =
+                   if Nat.eqb nn (S (S O)) then cq_of_z (Zneg XH) else ciQ
+                 in
+                 let g = gridD d nn in
+                 let u = fun k ->
+                   lookup
+                     (combine (map (map Z.of_nat) g)
+                       (take_cx (skipn (S (S O)) a))) (map Z.of_nat k)
+                 in
+                 put_cx
+                   ((meanD cQ d nn (idftD cQ d nn w' u)) :: (map
+                                                              (idftD cQ d nn
+                                                                w' u) g))
+               | _ -> [])
+            | XH ->
+              optl
+                (option_map (map zq)
+                  (gen_shape (z0 O) (decode_gen (zs (skipn (S O) a))))))
+         | XH ->
+           unqcs
+             (clamp qcOps (Obj.magic qc_leb) (Obj.magic qqc (getq a O))
+               (Obj.magic qqc (getq a (S O))) (qcs (skipn (S (S O)) a))))
+      | XO p0 ->
+        (match p0 with
+         | XI p1 ->
+           (match p1 with
+            | XI _ -> []
+            | XO p2 ->
+              (match p2 with
+               | XH ->
+                 (qcq
+                   (Obj.magic grf_amp_sq_even qcOps (qqc (getq a O))
+                     (n (S O)) (n (S (S O))) (z0 (S (S (S O))))
+                     (zs (skipn (S (S (S (S O)))) a)))) :: []
+               | _ -> [])
+            | XH -> r (supports_fun (decode_gen (zs a))))
+         | XO p1 ->
+           (match p1 with
+            | XI p2 ->
+              (match p2 with
+               | XH ->
+                 let idx0 = zs (skipn (S (S (S O))) a) in
+                 (bq (low_pass_axis (n O) (z0 (S O)) (z0 (S (S O))) idx0)) :: (
+                 (bq (is_zero_idx idx0)) :: [])
+               | _ -> [])
+            | XO p2 ->
+              (match p2 with
+               | XH ->
+                 let dc0 =
+                   tfs_dc qcOps (Obj.magic qqc (getq a O)) (n (S O))
+                     (n (S (S O)))
+                 in
+                 unqcs
+                   (dc0 :: ((qcOps.odiv dc0
+                              (npts qcOps (n (S O)) (n (S (S O))))) :: (
+                   (gen_tfs_dc qcOps (Obj.magic qqc (getq a O))
+                     (npts qcOps (n (S O)) (n (S (S O))))) :: [])))
+               | _ -> [])
+            | XH ->
+              unqcs
+                (scaled qcOps (Obj.magic qqc (getq a O))
+                  (qcs (skipn (S O) a))))
+         | XH ->
+           let l = qcs (skipn (S O) a) in
+           let l1 = if b O then center qcOps l else l in
+           unqcs ((variance qcOps l1) :: l1))
+      | XH ->
+        unqcs
+          (normalize_ic qcOps (Obj.magic qc_leb) qid (b O) false (b (S O))
+            (qcs (skipn (S (S O)) a))))
+   | _ -> [])
+
+(** val set0 : ops -> car list -> car list -> car list **)
+
+let set0 _ l xs =
+  match l with
+  | [] -> []
+  | _ :: r -> (match xs with
+               | [] -> []
+               | x :: _ -> x :: r)
+
+(** val normalize_coefficients : ops -> car -> car -> car list -> car list **)
+
+let normalize_coefficients k l dt coefficients =
+  imap (fun i c -> k.odiv (k.omul c dt) (fzpow k l (Z.of_nat i))) coefficients
+
+(** val denormalize_coefficients :
+    ops -> car -> car -> car list -> car list **)
+
+let denormalize_coefficients k l dt normalized_coefficients =
+  imap (fun i c_n -> k.omul (k.odiv c_n dt) (fzpow k l (Z.of_nat i)))
+    normalized_coefficients
+
+(** val normalize_convection_scale : ops -> car -> car -> car -> car **)
+
+let normalize_convection_scale k l dt convection_scale =
+  k.odiv (k.omul convection_scale dt) l
+
+(** val denormalize_convection_scale : ops -> car -> car -> car -> car **)
+
+let denormalize_convection_scale k l dt normalized_convection_scale =
+  k.omul (k.odiv normalized_convection_scale dt) l
+
+(** val normalize_gradient_norm_scale : ops -> car -> car -> car -> car **)
+
+let normalize_gradient_norm_scale k l dt gradient_norm_scale =
+  k.odiv (k.omul gradient_norm_scale dt) (fpow k l (S (S O)))
+
+(** val denormalize_gradient_norm_scale : ops -> car -> car -> car -> car **)
+
+let denormalize_gradient_norm_scale k l dt normalized_gradient_norm_scale =
+  k.omul (k.odiv normalized_gradient_norm_scale dt) (fpow k l (S (S O)))
+
+(** val normalize_polynomial_scales :
+    ops -> car -> car -> car list -> car list **)
+
+let normalize_polynomial_scales k _ dt polynomial_scales =
+  map (fun c -> k.omul c dt) polynomial_scales
+
+(** val denormalize_polynomial_scales :
+    ops -> car -> car -> car list -> car list **)
+
+let denormalize_polynomial_scales k _ dt normalized_polynomial_scales =
+  map (fun c_n -> k.odiv c_n dt) normalized_polynomial_scales
+
+(** val reduce_normalized_coefficients_to_difficulty :
+    ops -> car -> car -> car list -> car list **)
+
+let reduce_normalized_coefficients_to_difficulty k d n normalized_coefficients =
+  set0 k
+    (imap (fun j alpha ->
+      k.omul
+        (k.omul (k.omul alpha (fzpow k n (Z.of_nat j)))
+          (fzpow k (fz k (Zpos (XO XH))) (Z.sub (Z.of_nat j) (Zpos XH)))) d)
+      normalized_coefficients) normalized_coefficients
+
+(** val extract_normalized_coefficients_from_difficulty :
+    ops -> car -> car -> car list -> car list **)
+
+let extract_normalized_coefficients_from_difficulty k d n difficulty_coefficients =
+  set0 k
+    (imap (fun j gamma ->
+      k.odiv gamma
+        (k.omul
+          (k.omul (fzpow k n (Z.of_nat j))
+            (fzpow k (fz k (Zpos (XO XH))) (Z.sub (Z.of_nat j) (Zpos XH)))) d))
+      difficulty_coefficients) difficulty_coefficients
+
+(** val reduce_normalized_convection_scale_to_difficulty :
+    ops -> car -> car -> car -> car -> car **)
+
+let reduce_normalized_convection_scale_to_difficulty k d n m normalized_convection_scale =
+  k.omul (k.omul (k.omul normalized_convection_scale m) n) d
+
+(** val extract_normalized_convection_scale_from_difficulty :
+    ops -> car -> car -> car -> car -> car **)
+
+let extract_normalized_convection_scale_from_difficulty k d n m difficulty_convection_scale =
+  k.odiv difficulty_convection_scale (k.omul (k.omul m n) d)
+
+(** val reduce_normalized_gradient_norm_scale_to_difficulty :
+    ops -> car -> car -> car -> car -> car **)
+
+let reduce_normalized_gradient_norm_scale_to_difficulty k d n m normalized_gradient_norm_scale =
+  k.omul
+    (k.omul (k.omul normalized_gradient_norm_scale m) (fpow k n (S (S O)))) d
+
+(** val extract_normalized_gradient_norm_scale_from_difficulty :
+    ops -> car -> car -> car -> car -> car **)
+
+let extract_normalized_gradient_norm_scale_from_difficulty k d n m difficulty_gradient_norm_scale =
+  k.odiv difficulty_gradient_norm_scale
+    (k.omul (k.omul m (fpow k n (S (S O)))) d)
+
+(** val reduce_normalized_nonlinear_scales_to_difficulty :
+    ops -> car -> car -> car -> car list -> car list **)
+
+let reduce_normalized_nonlinear_scales_to_difficulty k d n m normalized_nonlinear_scales =
+  (nth O normalized_nonlinear_scales k.o0) :: ((reduce_normalized_convection_scale_to_difficulty
+                                                 k d n m
+                                                 (nth (S O)
+                                                   normalized_nonlinear_scales
+                                                   k.o0)) :: ((reduce_normalized_gradient_norm_scale_to_difficulty
+                                                                k d n m
+                                                                (nth (S (S
+                                                                  O))
+                                                                  normalized_nonlinear_scales
+                                                                  k.o0)) :: []))
+
+(** val extract_normalized_nonlinear_scales_from_difficulty :
+    ops -> car -> car -> car -> car list -> car list **)
+
+let extract_normalized_nonlinear_scales_from_difficulty k d n m nonlinear_difficulties =
+  (nth O nonlinear_difficulties k.o0) :: ((extract_normalized_convection_scale_from_difficulty
+                                            k d n m
+                                            (nth (S O) nonlinear_difficulties
+                                              k.o0)) :: ((extract_normalized_gradient_norm_scale_from_difficulty
+                                                           k d n m
+                                                           (nth (S (S O))
+                                                             nonlinear_difficulties
+                                                             k.o0)) :: []))
+
+(** val wave_mode :
+    ops -> car -> car -> car -> car -> car -> car -> car -> bool -> car ->
+    car -> car * car **)
+
+let wave_mode k ii s c rho dt ep em is_dc h v =
+  let g = if k.oeqb rho k.o0 then k.o1 else rho in
+  let w = k.omul (k.omul (k.omul ii c) g) h in
+  let pos = k.omul s (k.oadd w v) in
+  let neg = k.omul s (k.osub w v) in
+  let pos' = k.omul ep pos in
+  let neg' = k.omul em neg in
+  let w' = k.omul s (k.oadd pos' neg') in
+  let v' = k.omul s (k.osub pos' neg') in
+  let h' = k.odiv w' (k.omul (k.omul ii c) g) in
+  ((if is_dc then k.oadd h' (k.omul dt v) else h'), v')
 
 (** val deriv_mode : ops -> nat -> car list -> car -> car list **)
 
@@ -3838,13 +4844,14 @@ let run id a =
         (match p0 with
          | XI p1 ->
            (match p1 with
+            | XI _ -> []
             | XO p2 ->
               (match p2 with
                | XO p3 -> (match p3 with
                            | XH -> run_c19 sub0 a
                            | _ -> [])
                | _ -> [])
-            | _ -> [])
+            | XH -> run_c07 sub0 a)
          | XO p1 ->
            (match p1 with
             | XI p2 ->
@@ -3876,7 +4883,13 @@ let run id a =
             | XI p2 -> (match p2 with
                         | XH -> run_c14 sub0 a
                         | _ -> [])
-            | _ -> [])
+            | XO p2 ->
+              (match p2 with
+               | XO p3 -> (match p3 with
+                           | XH -> run_c18 sub0 a
+                           | _ -> [])
+               | _ -> [])
+            | XH -> run_c06 sub0 a)
          | XO p1 ->
            (match p1 with
             | XI p2 ->
